@@ -223,6 +223,9 @@ pub struct UniCase {
     /// sampler runs in this batch, each with its own RNG seed derived from `batch_seed`
     pub m: u64,
     pub batch_seed: u64,
+    /// the sampler first sees this many other items and is then cleared (0 = fresh sampler)
+    #[serde(default)]
+    pub warmup: usize,
 }
 
 pub struct S3b;
@@ -239,6 +242,17 @@ pub fn grid_ns(k: usize) -> Vec<usize> {
 
 pub fn small_grid() -> Vec<(usize, usize)> {
     KS.iter().flat_map(|&k| grid_ns(k).into_iter().map(move |n| (k, n))).collect()
+}
+
+/// cells run on a sampler that was used and cleared before: (k, n, warmup)
+pub fn restart_grid() -> Vec<(usize, usize, usize)> {
+    let mut v = vec![];
+    for &k in &[1usize, 4, 16, 64] {
+        v.push((k, 6 * k, 40 * k));
+        v.push((k, 4 * k + 2, 8 * k));
+        v.push((k, 2 * k, 3 * k));
+    }
+    v
 }
 
 pub fn large_grid() -> Vec<(usize, usize)> {
@@ -294,6 +308,13 @@ pub fn run_cell(case: &UniCase) -> CellResult {
     for r in 0..case.m {
         let (rng, _) = SimRng::new(mix2(case.batch_seed, r), &[]);
         let mut rs = ReservoirSampling::<u32, SimRng>::new(case.k, rng);
+        if case.warmup > 0 {
+            // a restarted sampler must sample like a fresh one
+            for t in 0..case.warmup {
+                rs.add(u32::MAX - t as u32);
+            }
+            rs.clear();
+        }
         for t in 0..case.n {
             rs.add(t as u32);
         }
@@ -426,18 +447,23 @@ impl Scenario for S3b {
 
     fn generate(seed: u64, run: u64, _prop: &'static str, tier: Tier) -> UniCase {
         let small = small_grid();
+        let restart = restart_grid();
         let large = large_grid();
-        let total = small.len() + if tier == Tier::Thorough { large.len() } else { 0 };
+        let total = small.len() + restart.len() + if tier == Tier::Thorough { large.len() } else { 0 };
         let idx = (run as usize) % total;
         let scale = if tier == Tier::Thorough { 10 } else { 1 };
         if idx < small.len() {
             let (k, n) = small[idx];
             let m = if k <= 16 { 200_000 } else { 20_000 } * scale;
-            UniCase { k, n, m, batch_seed: seed }
+            UniCase { k, n, m, batch_seed: seed, warmup: 0 }
+        } else if idx < small.len() + restart.len() {
+            let (k, n, warmup) = restart[idx - small.len()];
+            let m = if k <= 16 { 100_000 } else { 20_000 } * scale;
+            UniCase { k, n, m, batch_seed: seed, warmup }
         } else {
-            let (k, n) = large[idx - small.len()];
+            let (k, n) = large[idx - small.len() - restart.len()];
             let m = if n >= 100_000 { 3_000 } else { 10_000 };
-            UniCase { k, n, m, batch_seed: seed }
+            UniCase { k, n, m, batch_seed: seed, warmup: 0 }
         }
     }
 
@@ -447,6 +473,10 @@ impl Scenario for S3b {
         stats.sig(case.k as u64 * 1_000_003 + case.n as u64);
         stats.steps = case.m * case.n as u64;
         stats.probe_n("sampler_runs", case.m);
+        if case.warmup > 0 {
+            stats.fault_n("node_restart", case.m);
+        }
+        stats.sig(case.warmup as u64);
         stats.probe(if case.n <= 4 * case.k { "cell_ends_in_reservoir_phase" } else if case.n == 4 * case.k + 1 { "cell_ends_at_switch" } else { "cell_ends_in_gap_phase" });
         // the "fault" of this scenario is the RNG stream itself: every cell is non-trivial
         stats.fault_n("rng_stream_owned", case.m);
@@ -475,8 +505,8 @@ impl Scenario for S3b {
                             c,
                             0,
                             format!(
-                                "k = {}, n = {}, {} sampler runs: {} included {} times, expected {:.1} (ratio {:.4}, z = {:.1}, allowed relative deviation {:.4})",
-                                case.k, case.n, case.m, d.what, d.observed, d.expected, 1.0 + d.rel, d.z, d.allowed
+                                "k = {}, n = {}{}, {} sampler runs: {} included {} times, expected {:.1} (ratio {:.4}, z = {:.1}, allowed relative deviation {:.4})",
+                                case.k, case.n, if case.warmup > 0 { format!(" (after {} other items and clear())", case.warmup) } else { String::new() }, case.m, d.what, d.observed, d.expected, 1.0 + d.rel, d.z, d.allowed
                             ),
                         ));
                     }
@@ -493,8 +523,11 @@ impl Scenario for S3b {
         cells.sort_by_key(|&(k, n)| (n, k));
         for (k, n) in cells {
             if n < case.n || (n == case.n && k < case.k) {
-                out.push(UniCase { k, n, m: case.m.min(200_000), batch_seed: case.batch_seed });
+                out.push(UniCase { k, n, m: case.m.min(200_000), batch_seed: case.batch_seed, warmup: case.warmup.min(40 * k) });
             }
+        }
+        if case.warmup > 0 {
+            out.push(UniCase { warmup: 0, ..case.clone() });
         }
         if case.m > 20_000 {
             out.push(UniCase { m: case.m / 2, ..case.clone() });
@@ -503,7 +536,7 @@ impl Scenario for S3b {
     }
 
     fn describe(case: &UniCase) -> Value {
-        json!({"k": case.k, "n": case.n, "sampler_runs": case.m, "batch_seed": case.batch_seed})
+        json!({"k": case.k, "n": case.n, "sampler_runs": case.m, "batch_seed": case.batch_seed, "warmup_then_clear": case.warmup})
     }
 }
 
@@ -514,7 +547,7 @@ pub fn calibrate() {
     cells.extend(large_grid());
     for (k, n) in cells {
         let m = if n >= 100_000 { 2_000 } else if n >= 10_000 { 10_000 } else if k <= 16 { 200_000 } else { 20_000 };
-        let case = UniCase { k, n, m, batch_seed: 42 };
+        let case = UniCase { k, n, m, batch_seed: 42, warmup: 0 };
         let counts = run_cell_reference(&case);
         let (dev, worst) = evaluate(&case, &counts);
         println!("{} {} {} {:.3} {:.4} {}", k, n, m, worst, tol(k, n), if dev.is_empty() { "" } else { "EXCEEDS" });
